@@ -662,6 +662,17 @@ def run_conn(res, body, path, shape):
         if res.inconclusive is None and not res.viol:
             res.inconclusive = "harness process did not start a connection"
         return
+    if not hang:
+        # all connections of the process are ended: nothing may be left on the books of the capped allocator (memory that is
+        # accounted but never given back adds up over the life of a daemon until the cap refuses ordinary requests)
+        try:
+            hv = [e for e in c.w.cmd("heap") if e.get("ev") == "heap"]
+            if hv:
+                res.stats["heap_checks_after_last_connection"] += 1
+                if hv[0]["bytes"] != 0:
+                    res.viol.append(("mem/accounted-heap-not-zero-after-the-last-connection:" + holder.get("shape", shape), "%d bytes accounted with no connection left" % hv[0]["bytes"]))
+        except (Died, HangError):
+            pass
     rc, err = c.w.finish(kill=hang)
     res.ops = c.w.ops[:60]
     if not hang:
